@@ -1382,3 +1382,11 @@ def _(I, ctx, a, b):
     from .interp import ordering
     o = ordering(c)
     return SOME(o) if ctx.cur_key.endswith('partial_cmp') else o
+
+
+@model('re:^<.* as (itertools::)?Itertools>::(dedup)$')
+def _(I, ctx, it):
+    out = []
+    for x in _drain(I, ctx, it):
+        if not out or not ctx.branch(values_eq(I, ctx, out[-1], x)): out.append(x)
+    return ListIt(out)
